@@ -210,6 +210,11 @@ func (x *Exec) libStatic(st *State, f *Frame, callee *ssa.Function, c *ssa.CallC
 	case "(*sync.WaitGroup).Add", "(*sync.WaitGroup).Done", "(*sync.WaitGroup).Wait":
 		x.noteLib("sync.WaitGroup: no effect on modelled state (happens-before of Wait after Done is assumed)")
 		return nil, true
+	case "github.com/imdario/mergo.Merge":
+		if v, ok := x.mergoMerge(st, args); ok {
+			return v, true
+		}
+		return nil, false
 	case "reflect.DeepEqual":
 		// two pointers to the same struct type whose fields are all scalars: field-wise equality of the pointees
 		a, ok1 := args[0].(IfaceV)
@@ -479,4 +484,180 @@ func (x *Exec) libHTTP(st *State, f *Frame, name string, callee *ssa.Function, c
 		return Sc{reg.uf("lib_statustext", SStr, sc(0))}, true
 	}
 	return nil, false
+}
+
+// ---------------------------------------------------------------------------
+// github.com/imdario/mergo v0.3.7 — Merge(dst, src, opts...) modelled field by field from the static
+// type (the library itself works by reflection and is not verified: this model IS the assumed contract,
+// transcribed from deepMerge/isEmptyValue):
+//   scalar/string/slice field: src non-empty && (override || dst empty)  ==> dst = src
+//   pointer field:             src nil: nothing; dst nil or override: dst = src (the pointer itself —
+//                              with override a pointed-to struct is replaced WHOLESALE); else merge pointees
+//   struct field (by value):   recursively; unexported fields are never set
+//   map field:                 src empty: nothing; dst nil/empty: a copy of src; else an unspecified merge
+//   interface field:           src nil: nothing; dst nil or override: dst = src; else unchanged (approximation)
+func (x *Exec) mergoMerge(st *State, args []Val) (Val, bool) {
+	di, ok1 := args[0].(IfaceV)
+	si, ok2 := args[1].(IfaceV)
+	if !ok1 || !ok2 {
+		return nil, false
+	}
+	dt, okd := isIntLit(di.Tag)
+	stg, oks := isIntLit(si.Tag)
+	if !okd || !oks {
+		return nil, false
+	}
+	dpt, ok := reg.tagType(dt).(*types.Pointer)
+	if !ok {
+		return nil, false
+	}
+	T := dpt.Elem()
+	if _, ok := T.Underlying().(*types.Struct); !ok {
+		return nil, false
+	}
+	// override option?
+	override := false
+	if ov, ok := args[2].(SliceV); ok {
+		n, okn := isIntLit(ov.Len)
+		if !okn || n > 1 {
+			return nil, false
+		}
+		if n == 1 {
+			el := st.loadAt(ElemAddr{ov.Arr, IntLit(0), ov.Elem}, ov.Elem)
+			c, ok := el.(*ClosV)
+			if !ok || c.Fn.Name() != "WithOverride" {
+				return nil, false
+			}
+			override = true
+		}
+	}
+	var src Val
+	srcT := reg.tagType(stg)
+	if sp, ok := srcT.(*types.Pointer); ok {
+		if !types.Identical(sp.Elem(), T) {
+			return nil, false
+		}
+		src = st.loadAt(ObjAddr{si.Pay, T}, T)
+	} else {
+		if !types.Identical(srcT, T) {
+			return nil, false
+		}
+		src = unbox(st, si, T)
+	}
+	x.noteLib("mergo.Merge: assumed field-wise contract transcribed from mergo v0.3.7 deepMerge (see DESIGN.md); with WithOverride a non-nil pointer field of src REPLACES dst's pointer")
+	x.mergoDeep(st, ObjAddr{di.Pay, T}, src, T, override, TTrue, 0)
+	return IfaceV{IntLit(0), IntLit(0)}, true
+}
+
+func emptyOf(st *State, v Val, t types.Type) Term {
+	switch x := v.(type) {
+	case Sc:
+		switch x.T.Sort {
+		case SStr:
+			return Eq(x.T, StrLit(""))
+		case SBool:
+			return Not(x.T)
+		default:
+			return Eq(x.T, IntLit(0))
+		}
+	case SliceV:
+		return Eq(x.Len, IntLit(0))
+	case PtrV:
+		return Eq(st.addrTerm(x.A), IntLit(0))
+	case IfaceV:
+		return Eq(x.Tag, IntLit(0))
+	}
+	return TFalse
+}
+
+// mergoDeep merges src into the location dst (of type t) under the path condition guard.
+func (x *Exec) mergoDeep(st *State, dst Addr, src Val, t types.Type, override bool, guard Term, depth int) {
+	if depth > 6 {
+		bail("mergo model: type nesting too deep")
+	}
+	switch u := t.Underlying().(type) {
+	case *types.Struct:
+		if isTimeTime(t) {
+			break
+		}
+		sv := src.(StructV)
+		for i := 0; i < u.NumFields(); i++ {
+			if !u.Field(i).Exported() {
+				continue
+			}
+			x.mergoDeep(st, FldAddr{dst, i, u}, sv.F[i], u.Field(i).Type(), override, guard, depth+1)
+		}
+		return
+	case *types.Pointer:
+		cur := st.loadAt(dst, t).(PtrV)
+		sp := src.(PtrV)
+		dref, sref := st.addrTerm(cur.A), st.addrTerm(sp.A)
+		srcNil := Eq(sref, IntLit(0))
+		dstNil := Eq(dref, IntLit(0))
+		var set Term
+		if override {
+			set = Not(srcNil)
+		} else {
+			set = And(Not(srcNil), dstNil)
+		}
+		st.storeAt(dst, t, PtrV{ObjAddr{Ite(And(guard, set), sref, dref), u.Elem()}})
+		if !override {
+			if _, ok := u.Elem().Underlying().(*types.Struct); ok {
+				// both non-nil: merge the pointees
+				g2 := And(guard, Not(srcNil), Not(dstNil))
+				if g2.S != "false" {
+					x.mergoDeep(st, ObjAddr{dref, u.Elem()}, st.loadAt(ObjAddr{sref, u.Elem()}, u.Elem()), u.Elem(), override, g2, depth+1)
+				}
+			}
+		}
+		return
+	case *types.Map:
+		cur := st.loadAt(dst, t).(Sc).T
+		sm := src.(Sc).T
+		kt, vt := u.Key(), u.Elem()
+		srcEmpty := Or(Eq(sm, IntLit(0)), Eq(x.mapLen(st, sm, kt, vt), IntLit(0)))
+		dstEmpty := Or(Eq(cur, IntLit(0)), Eq(x.mapLen(st, cur, kt, vt), IntLit(0)))
+		nm := st.newRef("mergomap")
+		// when dst is empty the new map is a copy of src; otherwise its contents are unspecified
+		fam := mapFam(kt, vt)
+		ks := keySort(kt)
+		dom := st.heap("MD|"+fam, []Sort{SInt, ks}, SBool)
+		st.asserts = append(st.asserts, fmt.Sprintf("(=> %s (= (select %s %s) (select %s %s)))", dstEmpty.S, dom.Name, nm.S, dom.Name, sm.S))
+		for _, l := range leavesOf(vt) {
+			vh := st.heap("MV|"+fam+"|"+l.Path, []Sort{SInt, ks}, l.Sort)
+			st.asserts = append(st.asserts, fmt.Sprintf("(=> %s (= (select %s %s) (select %s %s)))", dstEmpty.S, vh.Name, nm.S, vh.Name, sm.S))
+		}
+		st.storeAt(dst, t, Sc{Ite(And(guard, Not(srcEmpty)), nm, cur)})
+		return
+	case *types.Interface:
+		cur := st.loadAt(dst, t).(IfaceV)
+		si := src.(IfaceV)
+		srcNil := Eq(si.Tag, IntLit(0))
+		dstNil := Eq(cur.Tag, IntLit(0))
+		var set Term
+		if override {
+			set = Not(srcNil)
+		} else {
+			set = And(Not(srcNil), dstNil)
+		}
+		c := And(guard, set)
+		st.storeAt(dst, t, IfaceV{Ite(c, si.Tag, cur.Tag), Ite(c, si.Pay, cur.Pay)})
+		return
+	}
+	// scalars, strings, slices
+	cur := st.loadAt(dst, t)
+	var set Term
+	if override {
+		set = Not(emptyOf(st, src, t))
+	} else {
+		set = And(Not(emptyOf(st, src, t)), emptyOf(st, cur, t))
+	}
+	c := And(guard, set)
+	cl, sl := st.flatten(cur), st.flatten(src)
+	var out []Term
+	for i := range cl {
+		out = append(out, Ite(c, sl[i], cl[i]))
+	}
+	nv, _ := unflatten(t, out)
+	st.storeAt(dst, t, nv)
 }
